@@ -57,16 +57,6 @@ fn map4<A: Copy, B: Copy + Default>(a: &M4<A>, f: impl Fn(A) -> B) -> M4<B> {
     r
 }
 
-fn rat_max<const N: usize>(a: &[[Rat; N]; N]) -> f64 {
-    let mut m = 0.0f64;
-    for r in a {
-        for x in r {
-            m = m.max(x.to_f64_lossy().abs());
-        }
-    }
-    m
-}
-
 /// `M' = diag(2^r) * M * diag(2^c)`.
 #[derive(Clone, Copy, Debug, PartialEq)]
 pub struct Scaling {
@@ -285,19 +275,13 @@ fn minor_perm_abs(b_abs: &M4<f64>, dr: usize, dc: usize) -> f64 {
 /// signed products of entries (Leibniz, cofactor expansion, vek's 2x2-block formulas: the same monomials in another
 /// order): |d adj_ij| <= c eps perm|minor_ji|, |d det| <= c eps perm|B|, hence
 /// |d inv_ij| <= c eps (perm|minor_ji| + |inv_ij| perm|B|) / |det| + eps |inv_ij|.  Structural zeros drop out, so for an
-/// affine matrix the linear part never sees the magnitude of the translation. With `input_rounded` the stored entries
-/// carry up to 2 roundings each, which moves the true inverse by <= 2 eps |inv| |B| |inv| entry-wise.
-fn inverse_tolerances(b_abs: &M4<f64>, w_abs: &M4<f64>, det_abs: f64, input_rounded: bool) -> M4<f64> {
+/// affine matrix the linear part never sees the magnitude of the translation.
+fn inverse_tolerances(b_abs: &M4<f64>, w_abs: &M4<f64>, det_abs: f64) -> M4<f64> {
     let p4 = perm_abs(b_abs);
     let mut t = [[0.0f64; 4]; 4];
-    let wb = rf::matmul(w_abs, b_abs);
-    let wbw = rf::matmul(&wb, w_abs);
     for i in 0..4 {
         for j in 0..4 {
             t[i][j] = (minor_perm_abs(b_abs, j, i) + w_abs[i][j] * p4) / det_abs + w_abs[i][j];
-            if input_rounded {
-                t[i][j] += 2.0 * wbw[i][j];
-            }
         }
     }
     t
@@ -351,9 +335,8 @@ fn dot2(x: &[f64; 4], y: &[f64; 4]) -> (f64, f64) {
 }
 
 /// Two-sided residual of a claimed inverse `g` of `a`, with the products evaluated exactly (Rat) or in doubled
-/// precision on the values as stored (floats): |(A G - I)_ij| <= k eps sum_k |a_ik| |g_kj|, same for G A. The bound is
-/// entry-wise, i.e. automatically relative to s_j/s_i and |t|/s_i for a T*R*S matrix.
-fn residual_check<S: Dom>(cx: &mut Cx, what: &str, a: &M4<S>, g: &M4<S>, k: f64) -> CaseResult {
+/// precision on the values as stored (floats): |(A G - I)_ij| <= k eps tol_left[i][j], |(G A - I)_ij| <= k eps tol_right[i][j].
+fn residual_check<S: Dom>(cx: &mut Cx, what: &str, a: &M4<S>, g: &M4<S>, tol_left: &M4<f64>, tol_right: &M4<f64>, k: f64) -> CaseResult {
     if S::EXACT {
         let id: M4<S> = rf::identity();
         check_eq!(cx, rf::matmul(a, g), id, "{}: M * inv(M) = I exactly", what);
@@ -361,20 +344,20 @@ fn residual_check<S: Dom>(cx: &mut Cx, what: &str, a: &M4<S>, g: &M4<S>, k: f64)
         return Ok(());
     }
     let (af, gf) = (map4(a, |x: S| x.f()), map4(g, |x: S| x.f()));
-    for (x, y, name) in [(&af, &gf, "M * inv(M)"), (&gf, &af, "inv(M) * M")] {
+    for (x, y, tol, name) in [(&af, &gf, tol_left, "M * inv(M)"), (&gf, &af, tol_right, "inv(M) * M")] {
         for i in 0..4 {
             for j in 0..4 {
                 let col = [y[0][j], y[1][j], y[2][j], y[3][j]];
-                let (p, abs) = dot2(&x[i], &col);
+                let (p, _) = dot2(&x[i], &col);
                 let want = if i == j { 1.0 } else { 0.0 };
                 let d = (p - want).abs();
-                let tl = k * S::eps() * abs;
+                let tl = k * S::eps() * tol[i][j];
                 cx.count();
                 if d.is_finite() && tl > 0.0 && d != 0.0 {
                     cx.note_err(d / tl);
                 }
                 if !(d <= tl) {
-                    fail!("{}: ({})[{}][{}] = {:e}, want {} (residual {:e} > {:e} = {} eps * sum |a||g|)\n M      = {:?}\n inv(M) = {:?}", what, name, i, j, p, want, d, tl, k, a, g);
+                    fail!("{}: ({})[{}][{}] = {:e}, want {} (residual {:e} > {:e} = {} eps * {:e})\n M      = {:?}\n inv(M) = {:?}", what, name, i, j, p, want, d, tl, k, tol[i][j], a, g);
                 }
             }
         }
@@ -948,7 +931,7 @@ pub fn inverse_structured<S: Dom>(t: &mut Tape, cx: &mut Cx) -> CaseResult {
     if !S::EXACT && 4.0 * k * S::eps() * perm_abs(&b_abs) > det_abs {
         discard!("precondition:|det| below 256 eps * sum of |terms| (float conditioning)");
     }
-    let tol = inverse_tolerances(&b_abs, &w_abs, det_abs, false);
+    let tol = inverse_tolerances(&b_abs, &w_abs, det_abs);
     let tol_left = {
         let (a, b2) = (rf::matmul(&b_abs, &tol), rf::matmul(&b_abs, &w_abs));
         let mut m = a;
@@ -1350,7 +1333,7 @@ fn fast_inverse_wide<S: Dom>(t: &mut Tape, cx: &mut Cx, rigid: bool, rounded: bo
         true
     };
     let mut kt = kt_wanted;
-    while !fast_in_range(kt) {
+    while kt != 0 && !fast_in_range(kt) {
         kt = kt * 3 / 4;
     }
     if kt != kt_wanted {
@@ -1376,11 +1359,26 @@ fn fast_inverse_wide<S: Dom>(t: &mut Tape, cx: &mut Cx, rigid: bool, rounded: bo
     // column_i / |column_i|^2 and -(row . t): <= ~10 roundings per entry on top of the two roundings of each base entry;
     // 512 keeps two orders of magnitude above the largest error observed (3 eps) and three or more below an O(1) defect
     let k = 512.0;
-    // residuals in doubled precision on the stored values. A-priori: the transposed block of a matrix whose entries are
-    // within 2 roundings of a rotation * scale has |R~^T R~ - I|_ij <= 2 eps sum_k |r_ki||r_kj|; column / |column|^2 adds
-    // <= 3 eps, the translation dot product <= 2 eps relative to sum |g_ik||t_k|: <= 6 eps sum |a||g| in total. 32 leaves
-    // a factor 5 and still sees a rotation that is off by an angle of 2^-18 (f32) / 2^-47 (f64)
-    let kres = 32.0;
+    // residuals in doubled precision on the stored values, entry-wise relative to the size of the TERMS of that entry at
+    // the base level (1 for M inv(M), m_j/m_i for inv(M) M, |t| resp. |t|/m_i in the translation column; the last row is
+    // exact). A-priori: stored rotation entries are within ~2 eps (absolute, relative to 1) of a rotation, so
+    // |R~^T R~ - I| <= ~4 sqrt(3) eps; column / |column|^2 adds <= 3 eps, the translation dot product <= 2 eps of its terms:
+    // <= ~10 eps * (1 | m_j/m_i) resp. ~5 eps * |t|. 16 * 3 = 48 eps leaves a factor 5 and still sees a rotation block that
+    // is off by an angle of 2^-17 (f32) / 2^-46 (f64)
+    // (f64 domain: the rotation is itself computed in working precision and is orthogonal only to ~12 eps, observed; an
+    // f32 rotation is the correct rounding of an f64 one. 64 in f64 still resolves angles of 2^-44.)
+    let kres = if S::NAME == "f64" && rounded { 64.0 } else { 16.0 };
+    let (mut res_left, mut res_right) = ([[0.0f64; 4]; 4], [[0.0f64; 4]; 4]);
+    for i in 0..3 {
+        for j in 0..3 {
+            // terms r_ik m_k * r_jk / m_k are O(1); terms (r_ki / m_i) * (r_kj m_j) are O(m_j / m_i)
+            res_left[i][j] = 3.0;
+            res_right[i][j] = 3.0 * mf[j].abs() / mf[i].abs();
+        }
+        // sum_k a_ik g_k3 + t_i with |g_k3| <= sqrt(3) tmax / m_k;  sum_k g_ik t_k + g_i3
+        res_left[i][3] = 6.0 * tmax;
+        res_right[i][3] = 4.0 * tmax / mf[i].abs();
+    }
     let id: M4<S> = rf::identity();
     let (r, c) = (rm::Mat4::<S>::from_arr(&ms), cm::Mat4::<S>::from_arr(&ms));
 
@@ -1396,7 +1394,7 @@ fn fast_inverse_wide<S: Dom>(t: &mut Tape, cx: &mut Cx, rigid: bool, rounded: bo
             check_affine_like(cx, $what, &g0, &w0, lin_scale, tr_scale, k)?;
             check_mat!(cx, S, rf::matmul(&bs, &g0), id, prod_scale, k, "{}: M * inv(M) = I (scaled back by powers of two)", $what);
             check_mat!(cx, S, rf::matmul(&g0, &bs), id, prod_scale, k, "{}: inv(M) * M = I (scaled back by powers of two)", $what);
-            residual_check(cx, $what, &bs, &g0, kres)?;
+            residual_check(cx, $what, &bs, &g0, &res_left, &res_right, kres)?;
         }};
     }
     if rigid {
@@ -1420,10 +1418,32 @@ fn fast_inverse_wide<S: Dom>(t: &mut Tape, cx: &mut Cx, rigid: bool, rounded: bo
     if general_ok {
         let kg = 64.0;
         let kind = if rigid { "rigid" } else { "T*R*S" };
-        let tol = inverse_tolerances(&b_abs, &w_abs, det_abs, !S::EXACT);
+        let alg = inverse_tolerances(&b_abs, &w_abs, det_abs);
+        // the reference is the inverse of the ideal matrix; the stored one differs from it by <= 2 roundings per entry
+        // (exact rotation a/n times a mantissa), resp. by <= 8 eps * |scale_l| in every entry of column l (rotation computed in
+        // f64 and rounded; ~3 eps observed in the f64 domain, where the construction itself runs in working precision): the true inverse moves by <= |inv| |dB| |inv|
+        let mut db = [[0.0f64; 4]; 4];
+        for i in 0..3 {
+            for j in 0..3 {
+                db[i][j] = if rounded { 8.0 * mf[j].abs() } else { 2.0 * b_abs[i][j] };
+            }
+        }
+        let pert = rf::matmul(&rf::matmul(&w_abs, &db), &w_abs);
+        let (mut cmp, mut res_l, mut res_r) = (alg, rf::matmul(&b_abs, &alg), rf::matmul(&alg, &b_abs));
+        for i in 0..4 {
+            for j in 0..4 {
+                cmp[i][j] = kg * alg[i][j] + if S::EXACT { 0.0 } else { pert[i][j] };
+                res_l[i][j] *= kg;
+                res_r[i][j] *= kg;
+            }
+        }
         let (gr, gc) = (r.inverted(), c.inverted());
-        check_entries(cx, &sc.unscale_inverse(&gr.to_arr()), &w0, &tol, kg, &|| format!("row-major inverted() on a {} matrix agrees with the exact / fast inverse (scaled back by powers of two)", kind))?;
-        check_entries(cx, &sc.unscale_inverse(&gc.to_arr()), &w0, &tol, kg, &|| format!("col-major inverted() on a {} matrix agrees with the exact / fast inverse (scaled back by powers of two)", kind))?;
+        for (what, g) in [("row-major inverted()", gr.to_arr()), ("col-major inverted()", gc.to_arr())] {
+            let g0 = sc.unscale_inverse(&g);
+            check_entries(cx, &g0, &w0, &cmp, 1.0, &|| format!("{} on a {} matrix agrees with the exact / fast inverse (scaled back by powers of two)", what, kind))?;
+            // the residual is taken on the matrix as stored: only the error of the cofactor evaluation itself is allowed
+            residual_check(cx, what, &bs, &g0, &res_l, &res_r, 1.0)?;
+        }
         let mut r2 = r;
         r2.invert();
         check_eq!(cx, r2.to_arr(), gr.to_arr(), "row-major invert() == inverted() on a {} matrix", kind);
@@ -1632,6 +1652,10 @@ fn det_family<const N: usize>(t: &mut Tape) -> ([[Rat; N]; N], &'static str) {
     (m, label)
 }
 
+fn rat_abs_max<const N: usize>(a: &[[Rat; N]; N]) -> f64 {
+    a.iter().flatten().map(|x| x.to_f64_lossy().abs()).fold(0.0, f64::max)
+}
+
 /// Budget for sum |r_i| + sum |c_j| of a determinant case: every partial product of up to N scaled entries
 /// (|entry| <= 36 before scaling), the N!-term sums and the same for a product with a second small matrix stay normal.
 fn det_budget<S: Dom>() -> i32 {
@@ -1664,11 +1688,12 @@ macro_rules! det_wide_case {
     ($fname:ident, $N:expr, $Mat:ident) => {
         pub fn $fname<S: Dom>(t: &mut Tape, cx: &mut Cx) -> CaseResult {
             const N: usize = $N;
-            let (b, label) = det_family::<N>(t);
+            let (mut b, label) = det_family::<N>(t);
             cx.label(label);
             let budget = det_budget::<S>();
+            let wide = kwide::<S>();
             let (mut r, mut c) = ([0i32; N], [0i32; N]);
-            match t.below(8) {
+            match t.below(10) {
                 0..=2 => cx.label("unit scale"),
                 3 | 4 => {
                     let k = kexp(t, budget / N as i32);
@@ -1676,16 +1701,16 @@ macro_rules! det_wide_case {
                     cx.label(if k < 0 { "all entries * 2^k, k < 0" } else { "all entries * 2^k, k > 0" });
                 }
                 5 => {
-                    let k = kexp(t, budget / N as i32);
+                    // one line as far as the arithmetic goes: every term of the expansion contains exactly one factor of it
+                    let k = kexp(t, wide);
                     if t.bool() {
                         r[t.below(N)] = k;
-                        cx.label("one row * 2^k");
                     } else {
                         c[t.below(N)] = k;
-                        cx.label("one column * 2^k");
                     }
+                    cx.label(if k < 0 { "one row or column * 2^k, k < 0 (up to the range limit)" } else { "one row or column * 2^k, k > 0 (up to the range limit)" });
                 }
-                _ => {
+                6 | 7 => {
                     let lim = (budget / (2 * N as i32)) as i64;
                     for i in 0..N {
                         r[i] = t.int(-lim, lim) as i32;
@@ -1693,9 +1718,72 @@ macro_rules! det_wide_case {
                     }
                     cx.label("independent row and column exponents");
                 }
+                8 => {
+                    let (i, j) = (t.below(N), t.below(N));
+                    let k = kexp(t, 40);
+                    let v = if b[i][j].is_zero() { nz(t) } else { b[i][j] };
+                    b[i][j] = v * if k > 0 { Rat::new(1i128 << k, 1) } else { Rat::new(1, 1i128 << (-k)) };
+                    cx.label("one element * 2^k (|k| <= 40)");
+                }
+                _ => {
+                    let (k, l) = (kexp(t, wide).abs(), kexp(t, wide).abs());
+                    let (i, j) = (t.below(N), t.below(N - 1));
+                    match t.below(3) {
+                        0 => {
+                            r[i] = k;
+                            r[(i + 1 + j) % N] = -l;
+                        }
+                        1 => {
+                            c[i] = k;
+                            c[(i + 1 + j) % N] = -l;
+                        }
+                        _ => {
+                            r[i] = k;
+                            c[j] = -l;
+                        }
+                    }
+                    cx.label("one line * 2^k and another * 2^-l (up to the range limit)");
+                }
             }
-            let e: i32 = r.iter().sum::<i32>() + c.iter().sum::<i32>();
+            // reduce the exponents until every partial product of the expansion, and the determinant itself, is in range
             let db = rf::det(&b);
+            {
+                let (lo, hi) = log_range::<S>();
+                let mut abs = [[0.0f64; N]; N];
+                for i in 0..N {
+                    for j in 0..N {
+                        abs[i][j] = b[i][j].to_f64_lossy().abs();
+                    }
+                }
+                let wanted = (r, c);
+                for _ in 0..48 {
+                    let e: i32 = r.iter().sum::<i32>() + c.iter().sum::<i32>();
+                    let ld = if db.is_zero() { 0.0 } else { db.to_f64_lossy().abs().log2() + e as f64 };
+                    if partial_products_in_range(&log_matrix(&abs, &r, &c), lo, hi) && ld >= lo && ld <= hi {
+                        break;
+                    }
+                    for i in 0..N {
+                        r[i] = r[i] * 3 / 4;
+                        c[i] = c[i] * 3 / 4;
+                    }
+                }
+                if (r, c) != wanted {
+                    cx.label("exponents reduced to the range limit of this zero pattern");
+                }
+                let lg = log_matrix(&abs, &r, &c);
+                let mx = lg.iter().flatten().cloned().fold(f64::NEG_INFINITY, f64::max);
+                let mn = lg.iter().flatten().cloned().filter(|x| *x != f64::NEG_INFINITY).fold(f64::INFINITY, f64::min);
+                if mx > hi / N as f64 + 2.0 && mn < hi / (2 * N) as f64 {
+                    cx.label("largest element above MAX^(1/N) next to ordinary ones");
+                }
+                if mn < lo / N as f64 - 2.0 && mx > lo / (2 * N) as f64 {
+                    cx.label("smallest element below MIN_POSITIVE^(1/N) next to ordinary ones");
+                }
+            }
+            // det(AB): a product with a dense factor spreads the largest row / column exponent over all N lines
+            let spread = r.iter().map(|x| x.abs()).max().unwrap() + c.iter().map(|x| x.abs()).max().unwrap();
+            let mild = N as i32 * spread <= budget && rat_abs_max(&b) <= 64.0;
+            let e: i32 = r.iter().sum::<i32>() + c.iter().sum::<i32>();
             let mut a = [[S::zero(); N]; N];
             let mut af = [[0.0f64; N]; N];
             let mut zeros = 0;
@@ -1721,37 +1809,41 @@ macro_rules! det_wide_case {
             near::<S>(cx, ca.transposed().determinant(), want, tol, "col-major det(A^T)", label)?;
             near::<S>(cx, rm::$Mat::<S>::from(ca).determinant(), want, tol, "det after layout change (col->row)", label)?;
             near::<S>(cx, cm::$Mat::<S>::from(ra).determinant(), want, tol, "det after layout change (row->col)", label)?;
-            // multiplicative with a second (small, dense) factor on either side
-            let b2: [[Rat; N]; N] = {
-                let mut m = [[Rat::ZERO; N]; N];
+            if mild {
+                // multiplicative with a second (small, dense) factor on either side
+                let b2: [[Rat; N]; N] = {
+                    let mut m = [[Rat::ZERO; N]; N];
+                    for i in 0..N {
+                        for j in 0..N {
+                            m[i][j] = ri(t.int(-4, 4));
+                        }
+                    }
+                    m
+                };
+                let d2 = rf::det(&b2);
+                let mut s2 = [[S::zero(); N]; N];
+                let mut f2 = [[0.0f64; N]; N];
                 for i in 0..N {
                     for j in 0..N {
-                        m[i][j] = ri(t.int(-4, 4));
+                        s2[i][j] = rat_to::<S>(b2[i][j]);
+                        f2[i][j] = s2[i][j].f().abs();
                     }
                 }
-                m
-            };
-            let d2 = rf::det(&b2);
-            let mut s2 = [[S::zero(); N]; N];
-            let mut f2 = [[0.0f64; N]; N];
-            for i in 0..N {
-                for j in 0..N {
-                    s2[i][j] = rat_to::<S>(b2[i][j]);
-                    f2[i][j] = s2[i][j].f().abs();
+                let mut abs_a = af;
+                for i in 0..N {
+                    for j in 0..N {
+                        abs_a[i][j] = af[i][j].abs();
+                    }
                 }
+                let want2 = rat_to::<S>(db * d2) * p2::<S>(e);
+                let tol_ab = 128.0 * S::eps() * perm_abs(&rf::matmul(&abs_a, &f2));
+                let tol_ba = 128.0 * S::eps() * perm_abs(&rf::matmul(&f2, &abs_a));
+                let (rb, cb) = (rm::$Mat::<S>::from_arr(&s2), cm::$Mat::<S>::from_arr(&s2));
+                near::<S>(cx, (ra * rb).determinant(), want2, tol_ab, "row-major det(A B) = det A det B", label)?;
+                near::<S>(cx, (cb * ca).determinant(), want2, tol_ba, "col-major det(B A) = det B det A", label)?;
+            } else {
+                cx.label("det(AB) not formed (the entries of the product would leave the range)");
             }
-            let mut abs_a = af;
-            for i in 0..N {
-                for j in 0..N {
-                    abs_a[i][j] = af[i][j].abs();
-                }
-            }
-            let want2 = rat_to::<S>(db * d2) * p2::<S>(e);
-            let tol_ab = 128.0 * S::eps() * perm_abs(&rf::matmul(&abs_a, &f2));
-            let tol_ba = 128.0 * S::eps() * perm_abs(&rf::matmul(&f2, &abs_a));
-            let (rb, cb) = (rm::$Mat::<S>::from_arr(&s2), cm::$Mat::<S>::from_arr(&s2));
-            near::<S>(cx, (ra * rb).determinant(), want2, tol_ab, "row-major det(A B) = det A det B", label)?;
-            near::<S>(cx, (cb * ca).determinant(), want2, tol_ba, "col-major det(B A) = det B det A", label)?;
             Ok(())
         }
     };
